@@ -25,7 +25,7 @@ ASSUMPTIONS = ['ids, durations and timestamps are excluded from the comparison w
 
 KINDS = ['success', 'raises', 'interrupt', 'interrupt_in_body', 'discarded', 'sampled_out', 'forced', 'handler_fault', 'key_fault', 'save_fails', 'kill_switch',
          'replay_ok', 'replay_missing_id', 'replay_missing_key', 'replay_fn_raises', 'replay_fn_interrupted', 'replay_imported',
-         'noop_discard', 'double_discard', 'equal_hash_args']
+         'noop_discard', 'double_discard', 'equal_hash_args', 'forced_discarded']
 
 
 def hist_program(seed):
@@ -137,6 +137,12 @@ def do_element(ctx, sess, kind, seed, w):
     if kind == 'noop_discard':
         # a discard with nothing to discard: outside any operation (cleanup code, a signal handler, a request that was not recorded)
         rec.discard_recording()
+        return
+    if kind == 'forced_discarded':
+        # sampling is enforced and the recording is discarded afterwards in the same operation
+        res = fr.execute(prog, {('main', 1): 'force', ('main', 3): 'discard'}, recorder=rec, spy=sess.spy, box=sess.box, with_twin=False,
+                         built=sess.builts.get((seed, None)))
+        sess.builts[(seed, None)] = res.live
         return
     if kind == 'double_discard':
         res = fr.execute(prog, {('main', 1): 'discard', ('main', 3): 'discard'}, recorder=rec, spy=sess.spy, box=sess.box, with_twin=False,
